@@ -448,6 +448,31 @@ def startB {β γ : Type} (sort : (α → α → Bool) → List α → List α) 
 
 end
 
+/-! ### one instance reaching the singleton registry through several routes (ninth round)
+
+`app.SetComponents(cs...)` (app/options.go:26-32) registers every listed component, in order, and a start may apply several
+such options (a module's option bundle next to the application's own list; `ioc.Register` adds one more).  The list of
+post-processors / runners the container later sequences is read off the registry (`GetSingletonNames`,
+factory.go PrepareComponents), so "every participant appears exactly once" starts here. -/
+
+section Routes
+variable {α ν : Type} [DecidableEq ν]
+
+/-- `registry.RegisterSingleton` (container/support/singleton_registry.go:52-62) for instances with different names:
+    `Load(name)` finds the name taken — by this very object: `return`, nothing is stored a second time — or stores it.
+    `acc` = the stored instances, one per name, in the order in which they were stored.  (A DIFFERENT object under a taken
+    name panics: `C01_code_RegisterSingleton`; participants of one start have names of their own.) -/
+def registerSingleton (name : α → ν) (acc : List α) (x : α) : List α :=
+  if acc.any (fun y => name y = name x) then acc else acc ++ [x]
+
+/-- all registrations of a start, in the order the options perform them -/
+def registerAll (name : α → ν) (regs : List α) : List α := regs.foldl (registerSingleton name) []
+
+/-- one `SetComponents` call that lists some of its components twice (`app.SetComponents(x, x)`) -/
+def listed (twice : α → Bool) (l : List α) : List α := l.flatMap fun x => if twice x then [x, x] else [x]
+
+end Routes
+
 /-! ### concrete participants for the driver and the examples -/
 
 /-- a participant: what the sorter sees of it, and an identity (position in the registration list) -/
